@@ -15,7 +15,7 @@ def add_infos(sc, rnd):
             # nearest enclosing history of f among hist_dirs
             cands = [d for d in hist_dirs if d == "" or f.startswith(d + "/")]
             at = max(cands, key=len) if cands else ""
-            extra.append({"op": "infosf", "at": at, "file": f[len(at) + 1 :] if at else f, "auto_root": rnd.random() < 0.5})
+            extra.append({"op": "infosf", "at": at, "file": f[len(at) + 1 :] if at else f, "auto_root": rnd.random() < 0.5, "rel_cwd": rnd.random() < 0.35})
     # the listing is read on another machine: the dates shown are the recorded ones, whatever the reader's zone
     for o in extra:
         if rnd.random() < 0.3:
